@@ -380,7 +380,6 @@ fn run_l2(case: &str, c: &L2, drv: &mut Driver, rep: &mut Report) {
     let term_out: &[u8] = if c.crlf { b"\r\n" } else { b"\n" };
     let mut model_out = vec![];
     let mut spec_out = vec![];
-    let mut crlf_bare_lf = false;
     let mut any_match = false;
     let mut any_nonmatch = false;
     let mut ls = 0usize;
@@ -416,7 +415,7 @@ fn run_l2(case: &str, c: &L2, drv: &mut Driver, rep: &mut Report) {
         }
         any_match = true;
         if c.crlf && line.last() == Some(&b'\n') && !(line.len() >= 2 && line[line.len() - 2] == b'\r') {
-            crlf_bare_lf = true;
+            rep.branch("l2:crlf-mode-bare-lf-line");
         }
         let term_in: &[u8] = &line[content.len()..];
         let (table, sane) = caps_sx(&matcher, hay, line_start);
@@ -484,8 +483,6 @@ fn run_l2(case: &str, c: &L2, drv: &mut Driver, rep: &mut Report) {
     if out != spec_out {
         let class = if guard == "0" {
             "braced-name-outside-capletters"
-        } else if crlf_bare_lf && !c.only {
-            "crlf-mode-bare-lf-terminator-rewritten"
         } else {
             ""
         };
